@@ -359,6 +359,18 @@ theorem maxjobs_admits_when_room (s : MJ) (id : Nat) (st : MdState) (nb : Bool)
   · rw [if_pos hc]; simpa using hc
   · rw [if_neg hc]; simp
 
+/-- **Re-attaching after an mrp restart restores the count**: a fresh
+semaphore (`resetMaxJobs`) on which `reattach` (= one non-blocking `Acquire`)
+is called once for every job that is in flight on the cluster — distinct jobs,
+at most `limit` of them, which is what the previous incarnation guaranteed —
+holds exactly those jobs afterwards, so new submissions wait for them. -/
+theorem reattach_restores_count (L : Int) (ids : List Nat) (hnd : ids.Nodup)
+    (hlen : (ids.length : Int) ≤ L) :
+    ((MJ.init L).run (reattachOps ids)).running = ids := by
+  have := MJ.run_reattach L ids (MJ.init L) rfl (by simpa [MJ.init] using hnd)
+    (by simpa [MJ.init] using hlen)
+  simpa [MJ.init] using this.1
+
 /-! ## GetSystemReqs / Enqueue (after float → integer conversion) -/
 
 /-- **Requests are clamped to the limits** — zero, negative ("adaptive") and
@@ -833,6 +845,10 @@ example : Sane ⟨4, 8, 16384, 1, 1, 3⟩ ∧
     normalize ⟨4, 8, 16384, 1, 1, 3⟩ 8192 16384 ⟨0, 0, 0⟩ = ⟨100, 1024, 4096⟩ ∧
     normalize ⟨4, 8, 16384, 1, 1, 3⟩ 6000 16384 ⟨-100, -2048, 0⟩ = ⟨400, 6000, 9072⟩ ∧
     normalize ⟨4, 8, 16384, 1, 1, 3⟩ 8192 16384 ⟨900, 99999, 99999⟩ = ⟨400, 8192, 16384⟩ := by decide
+
+/-- `reattach_restores_count`: two in-flight jobs, --maxjobs 2; a third job then has to wait -/
+example : ((MJ.init 2).run (reattachOps [3, 1])).running = [3, 1] ∧
+    (((MJ.init 2).run (reattachOps [3, 1])).attempt 0 .waiting false).2 = none := by decide
 
 /-- MaxJobs: the limit is reached and a further blocking attempt waits -/
 example :
